@@ -164,6 +164,8 @@ package slice
 //@   ensures [C12] subseq: len(vs) > 0 ==> forall k int :: {result[k]} 0 <= k && k < len(result) ==> 0 <= w[k] && w[k] < len(vs) && result[k] == vs[w[k]]
 //@   ensures [C12] order: len(vs) > 0 ==> forall a int, b int :: {result[a], result[b]} 0 <= a && b == a + 1 && b < len(result) ==> w[a] < w[b] && ord(cmp, result[a], result[b]) <= 0
 //@   ensures [C12] input: unchanged(elems(vs))
+//@   ensures [C12] potential: forall j int, x int :: {cl[j], cl[x]} 0 <= j && j < x && x < len(vs) && ord(cmp, vs[j], vs[x]) <= 0 ==> cl[j] < cl[x]
+//@   ensures [C12] lengths: len(vs) > 0 ==> forall x int :: {cl[x]} 0 <= x && x < len(vs) ==> 1 <= cl[x] && cl[x] <= len(result)
 //@   at after "tails[0] = 0": ghost cl[0] = 1
 //@   at after "tails = append(tails, i)": ghost cl[i] = len(tails)
 //@   at after "tails[replaceIdx] = i": ghost cl[i] = replaceIdx + 1
@@ -179,6 +181,8 @@ package slice
 //@   loop 1: invariant shape: 1 <= len(tails) && len(tails) <= it1 + 1 && it1 + 1 <= len(vs) && cap(tails) == len(vs) && len(prev) == len(vs) && fresh(tails) && fresh(prev) && tails.base != prev.base && unchanged(elems(vs)) && old_arrays_unchanged(tails)
 //@   loop 1: invariant tails: tailsOK(vs, cmp, tails, cl, it1 + 1, false)
 //@   loop 1: invariant chain: chainOK(vs, cmp, prev, cl, it1 + 1, len(tails), false)
+//@   loop 1: invariant [C12] potential: forall j int, x int :: {cl[j], cl[x]} 0 <= j && j < x && x <= it1 && ord(cmp, vs[j], vs[x]) <= 0 ==> cl[j] < cl[x]
+//@   loop 1: invariant [C12] tailbound: forall j int :: {cl[j]} 0 <= j && j <= it1 ==> ord(cmp, vs[tails[cl[j] - 1]], vs[j]) <= 0
 //@   at after "ret[len(ret)-1-i] = vs[seqIdx]": ghost w[len(ret) - 1 - i] = seqIdx
 //@   loop 2: invariant shape: len(ret) == len(tails) && fresh(ret) && ret.base != tails.base && ret.base != prev.base && len(prev) == len(vs) && unchanged(elems(vs))
 //@   loop 2: invariant cursor: (it2 < len(ret) ==> 0 <= seqIdx && seqIdx < len(vs) && cl[seqIdx] == len(ret) - it2) && (it2 == len(ret) ==> true)
@@ -186,6 +190,7 @@ package slice
 //@   loop 2: invariant order: forall a int, b int :: {ret[a], ret[b]} len(ret) - it2 <= a && b == a + 1 && b < len(ret) ==> w[a] < w[b] && ord(cmp, ret[a], ret[b]) <= 0
 //@   loop 2: invariant link: 0 < it2 && it2 < len(ret) ==> seqIdx < w[len(ret) - it2] && ord(cmp, vs[seqIdx], vs[w[len(ret) - it2]]) <= 0
 //@   loop 2: invariant chain: chainOK(vs, cmp, prev, cl, len(vs), len(tails), false)
+//@   loop 2: invariant [C12] potential: forall j int, x int :: {cl[j], cl[x]} 0 <= j && j < x && x < len(vs) && ord(cmp, vs[j], vs[x]) <= 0 ==> cl[j] < cl[x]
 //@
 //@ func LISFunc
 //@   role cmp ord
@@ -195,6 +200,8 @@ package slice
 //@   ensures [C12] subseq: len(vs) > 0 ==> forall k int :: {result[k]} 0 <= k && k < len(result) ==> 0 <= w[k] && w[k] < len(vs) && result[k] == vs[w[k]]
 //@   ensures [C12] order: len(vs) > 0 ==> forall a int, b int :: {result[a], result[b]} 0 <= a && b == a + 1 && b < len(result) ==> w[a] < w[b] && ord(cmp, result[a], result[b]) < 0
 //@   ensures [C12] input: unchanged(elems(vs))
+//@   ensures [C12] potential: forall j int, x int :: {cl[j], cl[x]} 0 <= j && j < x && x < len(vs) && ord(cmp, vs[j], vs[x]) < 0 ==> cl[j] < cl[x]
+//@   ensures [C12] lengths: len(vs) > 0 ==> forall x int :: {cl[x]} 0 <= x && x < len(vs) ==> 1 <= cl[x] && cl[x] <= len(result)
 //@   at after "tails[0] = 0": ghost cl[0] = 1
 //@   at after "tails = append(tails, i)": ghost cl[i] = len(tails)
 //@   at after "tails[replaceIdx] = i": ghost cl[i] = replaceIdx + 1
@@ -209,6 +216,8 @@ package slice
 //@   loop 1: invariant shape: 1 <= len(tails) && len(tails) <= it1 + 1 && it1 + 1 <= len(vs) && cap(tails) == len(vs) && len(prev) == len(vs) && fresh(tails) && fresh(prev) && tails.base != prev.base && unchanged(elems(vs)) && old_arrays_unchanged(tails)
 //@   loop 1: invariant tails: tailsOK(vs, cmp, tails, cl, it1 + 1, true)
 //@   loop 1: invariant chain: chainOK(vs, cmp, prev, cl, it1 + 1, len(tails), true)
+//@   loop 1: invariant [C12] potential: forall j int, x int :: {cl[j], cl[x]} 0 <= j && j < x && x <= it1 && ord(cmp, vs[j], vs[x]) < 0 ==> cl[j] < cl[x]
+//@   loop 1: invariant [C12] tailbound: forall j int :: {cl[j]} 0 <= j && j <= it1 ==> ord(cmp, vs[tails[cl[j] - 1]], vs[j]) <= 0
 //@   at after "ret[len(ret)-1-i] = vs[seqIdx]": ghost w[len(ret) - 1 - i] = seqIdx
 //@   loop 2: invariant shape: len(ret) == len(tails) && fresh(ret) && ret.base != tails.base && ret.base != prev.base && len(prev) == len(vs) && unchanged(elems(vs))
 //@   loop 2: invariant cursor: (it2 < len(ret) ==> 0 <= seqIdx && seqIdx < len(vs) && cl[seqIdx] == len(ret) - it2) && (it2 == len(ret) ==> true)
@@ -216,6 +225,7 @@ package slice
 //@   loop 2: invariant order: forall a int, b int :: {ret[a], ret[b]} len(ret) - it2 <= a && b == a + 1 && b < len(ret) ==> w[a] < w[b] && ord(cmp, ret[a], ret[b]) < 0
 //@   loop 2: invariant link: 0 < it2 && it2 < len(ret) ==> seqIdx < w[len(ret) - it2] && ord(cmp, vs[seqIdx], vs[w[len(ret) - it2]]) < 0
 //@   loop 2: invariant chain: chainOK(vs, cmp, prev, cl, len(vs), len(tails), true)
+//@   loop 2: invariant [C12] potential: forall j int, x int :: {cl[j], cl[x]} 0 <= j && j < x && x < len(vs) && ord(cmp, vs[j], vs[x]) < 0 ==> cl[j] < cl[x]
 //@
 //@ func LNDS
 //@   ensures [C12] len(vs) == 0 ==> result == vs
